@@ -95,6 +95,8 @@ func (h *Hub) checkHasStarted() bool {
 func (h *Hub) RegisterRemoteSKI(ski string) {
 	ski = util.NormalizeSKI(ski)
 
+	h.notePairingRegistered(ski)
+
 	// if the hub has not started, simply add it
 	if !h.checkHasStarted() {
 		service := h.ServiceForSKI(ski)
@@ -129,6 +131,8 @@ func (h *Hub) RegisterRemoteSKI(ski string) {
 func (h *Hub) UnregisterRemoteSKI(ski string) {
 	ski = util.NormalizeSKI(ski)
 
+	h.notePairingWithdrawn(ski)
+
 	service := h.ServiceForSKI(ski)
 	service.SetTrusted(false)
 
@@ -160,6 +164,8 @@ func (h *Hub) DisconnectSKI(ski string, reason string) {
 func (h *Hub) CancelPairingWithSKI(ski string) {
 	ski = util.NormalizeSKI(ski)
 
+	h.notePairingWithdrawn(ski)
+
 	h.removeConnectionAttemptCounter(ski)
 
 	if existingC := h.connectionForSKI(ski); existingC != nil {
@@ -182,4 +188,30 @@ func (h *Hub) CancelPairingWithSKI(ski string) {
 	service.SetTrusted(false)
 
 	h.hubReader.ServicePairingDetailUpdate(ski, service.ConnectionStateDetail())
+}
+
+// the user withdrew the trust for a SKI
+func (h *Hub) notePairingWithdrawn(ski string) {
+	h.muxWithdrawals.Lock()
+	defer h.muxWithdrawals.Unlock()
+
+	h.pairingWithdrawals[ski]++
+}
+
+// the user registered a SKI
+func (h *Hub) notePairingRegistered(ski string) {
+	h.muxWithdrawals.Lock()
+	defer h.muxWithdrawals.Unlock()
+
+	h.pairingRegisteredAt[ski] = h.pairingWithdrawals[ski]
+}
+
+// returns how often the trust for a SKI was withdrawn and if the SKI
+// was registered again after the last time
+func (h *Hub) pairingWithdrawalCount(ski string) (uint64, bool) {
+	h.muxWithdrawals.Lock()
+	defer h.muxWithdrawals.Unlock()
+
+	count := h.pairingWithdrawals[ski]
+	return count, h.pairingRegisteredAt[ski] == count
 }
